@@ -18,6 +18,9 @@ import (
 // debugAbsorbed (C09_DEBUG=1) prints every failure that an open finding absorbed, for triage of the triggers.
 var debugAbsorbed = os.Getenv("C09_DEBUG") == "1"
 
+// debugTrace (C09_TRACE=1) prints every resolved call, its outcome and the table after it (reading a replay).
+var debugTrace = os.Getenv("C09_TRACE") == "1"
+
 const (
 	mustOK = iota
 	mustErr
@@ -85,12 +88,19 @@ func (x *exec) fail(clause string, cands []cand, format string, a ...interface{}
 func (x *exec) done() bool { return x.stop || x.absorbed }
 
 // sel resolves a state-independent selector against the current size n:
-// negative -> itself (-1, -2); residues 0,1,2 of 32 -> n, n+1, -1; everything else -> a valid index.
+// negative -> itself (-1, -2); from endBase on -> a valid index counted from the end (n-1, n-2, ...);
+// residues 0,1,2 of 32 -> n, n+1, -1; everything else -> a valid index.
 func (x *exec) sel(s, n int) int {
 	if s < 0 {
 		x.res.Label("pos:negative")
 		x.oor = true
 		return s
+	}
+	if s >= endBase {
+		if n <= 0 {
+			return 0
+		}
+		return n - 1 - (s-endBase)%n
 	}
 	switch s % 32 {
 	case 0:
